@@ -739,10 +739,17 @@ def check(ctx, rep):
         rep.add("R03g", f"{P.qualname}.write_status: one-line status", not problems, ctx.where(ws), "; ".join(problems), key=f"R03g|{P.qualname}.write_status")
 
     # ------------------------------------------------------------------ R03e
+    seen_ctor_sites = set()
     for H in ctx.handler_classes():
-        for m in H.methods.values():
+        # methods the class actually runs, wherever they are defined (mixins, base classes)
+        own = [m_ for c_ in prog.mro(H) for m_ in c_.methods.values() if prog.resolve_method(H, m_.name) is m_]
+        for m in own:
             for call, t in eff.calls_of(m, H):
                 if t.kind == "ext" and t.ext in MAILBOX_CTORS:
+                    if (id(call), H.qualname) in seen_ctor_sites or (m.cls is not H and any(
+                            (id(call), B.qualname) in seen_ctor_sites for B in prog.mro(H)[1:] if hasattr(B, "qualname") and m.cls is not None and prog.is_subclass(B, m.cls) and B in ctx.handler_classes())):
+                        continue
+                    seen_ctor_sites.add((id(call), H.qualname))
                     guarded = False
                     for tr in enclosing_tries(m.node, call):
                         for hd in tr.handlers:
@@ -767,10 +774,18 @@ def check(ctx, rep):
                     # message handlers accept on the selector text alone
                     verified = _existence_checked(ctx, prog, H)
                     ok = guarded or verified
-                    rep.add("R03e", f"{m.qualname}: {norm(call)[:60]}", ok, ctx.where(m, call),
-                            "" if ok else "raises mailbox.NoSuchMailboxError (not an OSError) when the mailbox does not exist; "
-                            "nothing converts it into a not-found reply and canhandlerequest does not check existence",
-                            key=f"R03e|{m.qualname}|{norm(call.func)}")
+                    detail = "" if ok else ("raises mailbox.NoSuchMailboxError (not an OSError) when the mailbox does not exist; "
+                                            "nothing converts it into a not-found reply and canhandlerequest does not check existence")
+                    # a mailbox constructor creates the mailbox on disk unless told not to (Maildir: create=True by default)
+                    creates = (t.ext.endswith("Maildir") and not create_false) or \
+                        any(k.arg == "create" and not (isinstance(k.value, ast.Constant) and k.value.value is False) for k in call.keywords)
+                    if creates and not verified:
+                        ok = False
+                        detail = (detail + "; " if detail else "") + "creates the mailbox directories when the path does not exist: a read request for " \
+                            "`<missing path>|/…MESSAGE/n` leaves new directories in the content tree, and later listings differ"
+                    owner = f"{H.name}:" if m.cls is not H else ""
+                    rep.add("R03e", f"{owner}{m.qualname}: {norm(call)[:60]}", ok, ctx.where(m, call), detail,
+                            key=f"R03e|{owner}{m.qualname}|{norm(call.func)}")
     # zipfile.ZipFile() raises zipfile.BadZipFile (not an OSError) for an archive is_zipfile() accepted but that is damaged
     for f in prog.all_functions():
         if not f.module.name.startswith("pygopherd.handlers"):
